@@ -15,3 +15,4 @@ from . import overlap  # noqa
 from . import multirun  # noqa
 from . import postoffice  # noqa
 from . import copying  # noqa
+from . import getiter  # noqa
